@@ -566,13 +566,13 @@ package gkvlite
 //@ func (*Collection).mkRootNodeLoc
 //@   props C10 C05 C04
 //@   requires t != nil && locks[freeRootNodeLocLock] == 0
-//@   modifies rootNodeLoc.refs, rootNodeLoc.root, rootNodeLoc.next, rootNodeLoc.chainedCollection, rootNodeLoc.chainedRootNodeLoc, mem.Int, G.freeRootNodeLocs, AllocStats.MkRootNodeLocs, AllocStats.AllocRootNodeLocs, AllocStats.CurFreeRootNodeLocs
-//@   ensures [C10] init: result != nil && result.refs == 1 && result.root == root && result.next == nil && result.chainedCollection == nil && result.chainedRootNodeLoc == nil && result.reclaimLater[0] == nil && result.reclaimLater[1] == nil && result.reclaimLater[2] == nil
+//@   modifies rootNodeLoc.refs, rootNodeLoc.root, rootNodeLoc.next, rootNodeLoc.superseded, rootNodeLoc.chainedCollection, rootNodeLoc.chainedRootNodeLoc, mem.ptr, G.freeRootNodeLocs, AllocStats.MkRootNodeLocs, AllocStats.AllocRootNodeLocs, AllocStats.CurFreeRootNodeLocs
+//@   ensures [C10] init: result != nil && result.refs == 1 && !result.superseded && result.root == root && result.next == nil && result.chainedCollection == nil && result.chainedRootNodeLoc == nil && result.reclaimLater[0] == nil && result.reclaimLater[1] == nil && result.reclaimLater[2] == nil
 //@   proves [C10] R6-source: fresh(result) || result == old(freeRootNodeLocs)
 //@   ensures [C10] others-untouched: forall x :: x != result ==> rootNodeLoc.refs[x] == old(rootNodeLoc.refs[x]) && rootNodeLoc.root[x] == old(rootNodeLoc.root[x]) && rootNodeLoc.chainedCollection[x] == old(rootNodeLoc.chainedCollection[x]) && rootNodeLoc.chainedRootNodeLoc[x] == old(rootNodeLoc.chainedRootNodeLoc[x])
 //@   postulate A13-fresh: fresh(result)
-//@   loop 0 modifies mem.Int
-//@   loop 0 invariant 0 <= i && i <= 3 && rnl != nil && (forall k in 0..i :: rnl.reclaimLater[k] == nil) && rnl.refs == 1 && rnl.root == root && rnl.next == nil && rnl.chainedCollection == nil && rnl.chainedRootNodeLoc == nil
+//@   loop 0 modifies mem.ptr
+//@   loop 0 invariant 0 <= i && i <= 3 && rnl != nil && (forall k in 0..i :: rnl.reclaimLater[k] == nil) && rnl.refs == 1 && !rnl.superseded && rnl.root == root && rnl.next == nil && rnl.chainedCollection == nil && rnl.chainedRootNodeLoc == nil
 //@   loop 0 decreases 3 - i
 
 //@ func (*Collection).freeRootNodeLoc
@@ -665,13 +665,14 @@ package gkvlite
 //@   relies not-on-the-free-list: r.next == nil
 //@   relies root-loc-not-on-the-free-list: r.root != nil ==> r.root.next == nil && standaloneNL(r.root)
 //@   relies chained-version-is-distinct: r.chainedRootNodeLoc != r
-//@   modifies rootNodeLoc.refs, rootNodeLoc.root, rootNodeLoc.next, rootNodeLoc.chainedCollection, rootNodeLoc.chainedRootNodeLoc, node.numNodes, node.numBytes, node.next, itemLoc.loc, itemLoc.item, nodeLoc.loc, nodeLoc.node, nodeLoc.next, mem.Int, G.freeNodes, G.freeNodeLocs, G.freeRootNodeLocs, AllocStats.CurFreeNodes, AllocStats.FreeNodes, AllocStats.CurFreeNodeLocs, AllocStats.FreeNodeLocs, AllocStats.CurFreeRootNodeLocs, AllocStats.FreeRootNodeLocs, ghost net
+//@   modifies rootNodeLoc.refs, rootNodeLoc.root, rootNodeLoc.next, rootNodeLoc.chainedCollection, rootNodeLoc.chainedRootNodeLoc, node.numNodes, node.numBytes, node.next, itemLoc.loc, itemLoc.item, nodeLoc.loc, nodeLoc.node, nodeLoc.next, mem.ptr, G.freeNodes, G.freeNodeLocs, G.freeRootNodeLocs, AllocStats.CurFreeNodes, AllocStats.FreeNodes, AllocStats.CurFreeNodeLocs, AllocStats.FreeNodeLocs, AllocStats.CurFreeRootNodeLocs, AllocStats.FreeRootNodeLocs, ghost net
 //@   decreases chainlen(r) + 1
 //@   ensures [C10,C04] R5-still-referenced-means-untouched: old(r.refs) > 1 ==> r.refs == old(r.refs) - 1 && freeNodes == old(freeNodes) && freeNodeLocs == old(freeNodeLocs) && freeRootNodeLocs == old(freeRootNodeLocs) && net == old(net) && node.next == old(node.next) && nodeLoc.node == old(nodeLoc.node) && nodeLoc.loc == old(nodeLoc.loc) && itemLoc.item == old(itemLoc.item) && rootNodeLoc.root == old(rootNodeLoc.root)
 //@   ensures [C10] R5-only-this-count: old(r.refs) > 1 ==> forall x :: x != r ==> rootNodeLoc.refs[x] == old(rootNodeLoc.refs[x])
 //@   loop 0 modifies node.numNodes, node.numBytes, node.next, itemLoc.loc, itemLoc.item, nodeLoc.loc, nodeLoc.node, nodeLoc.next, r.reclaimLater, G.freeNodes, AllocStats.CurFreeNodes, AllocStats.FreeNodes, ghost net
-//@   after (*Collection).rootDecRefUnlocked.0 assumes r.root == old(r.root) && r.next == old(r.next) && r.refs == old(r.refs) && (r.root != nil ==> r.root.next == old(r.root.next) && r.root.node == old(r.root.node)) && r.reclaimLater[0] == old(r.reclaimLater[0]) && r.reclaimLater[1] == old(r.reclaimLater[1]) && r.reclaimLater[2] == old(r.reclaimLater[2])
+//@   after (*Collection).rootDecRefUnlocked.0 assumes r.root == old(r.root) && r.next == old(r.next) && r.refs == old(r.refs) && r.superseded == old(r.superseded) && (r.root != nil ==> r.root.next == old(r.root.next) && r.root.node == old(r.root.node)) && r.reclaimLater[0] == old(r.reclaimLater[0]) && r.reclaimLater[1] == old(r.reclaimLater[1]) && r.reclaimLater[2] == old(r.reclaimLater[2])
 //@   loop 0 invariant bounds: 0 <= i && i <= 3
+//@   relies acyclic-root: r.root != nil && r.root.node != nil ==> rank(r.root.node) >= 0
 //@   loop 0 invariant [C10] ready-to-free: (forall k in 0..i :: r.reclaimLater[k] == nil) && r.next == nil && r.root != nil && r.root.next == nil
 //@   loop 0 decreases 3 - i
 
@@ -684,7 +685,7 @@ package gkvlite
 //@   relies chained-collection-is-well-formed: r.chainedCollection != nil ==> r.chainedCollection.store != nil
 //@   relies not-on-the-free-list: r.next == nil
 //@   relies root-loc-not-on-the-free-list: r.root != nil ==> r.root.next == nil
-//@   modifies rootNodeLoc.refs, rootNodeLoc.root, rootNodeLoc.next, rootNodeLoc.chainedCollection, rootNodeLoc.chainedRootNodeLoc, node.numNodes, node.numBytes, node.next, itemLoc.loc, itemLoc.item, nodeLoc.loc, nodeLoc.node, nodeLoc.next, mem.Int, G.freeNodes, G.freeNodeLocs, G.freeRootNodeLocs, AllocStats.CurFreeNodes, AllocStats.FreeNodes, AllocStats.CurFreeNodeLocs, AllocStats.FreeNodeLocs, AllocStats.CurFreeRootNodeLocs, AllocStats.FreeRootNodeLocs, ghost net
+//@   modifies rootNodeLoc.refs, rootNodeLoc.root, rootNodeLoc.next, rootNodeLoc.chainedCollection, rootNodeLoc.chainedRootNodeLoc, node.numNodes, node.numBytes, node.next, itemLoc.loc, itemLoc.item, nodeLoc.loc, nodeLoc.node, nodeLoc.next, mem.ptr, G.freeNodes, G.freeNodeLocs, G.freeRootNodeLocs, AllocStats.CurFreeNodes, AllocStats.FreeNodes, AllocStats.CurFreeNodeLocs, AllocStats.FreeNodeLocs, AllocStats.CurFreeRootNodeLocs, AllocStats.FreeRootNodeLocs, ghost net
 //@   ensures [C10,C04,C05] R5-still-referenced-means-untouched: old(r.refs) > 1 ==> r.refs == old(r.refs) - 1 && freeNodes == old(freeNodes) && freeNodeLocs == old(freeNodeLocs) && freeRootNodeLocs == old(freeRootNodeLocs) && net == old(net) && node.next == old(node.next) && nodeLoc.node == old(nodeLoc.node) && nodeLoc.loc == old(nodeLoc.loc) && itemLoc.item == old(itemLoc.item) && rootNodeLoc.root == old(rootNodeLoc.root)
 //@   ensures [C10] R5-only-this-count: old(r.refs) > 1 ==> forall x :: x != r ==> rootNodeLoc.refs[x] == old(rootNodeLoc.refs[x])
 
@@ -693,8 +694,119 @@ package gkvlite
 //@   from: code; C10 R4 (a still-referenced predecessor is chained to its successor, which then counts one more reference)
 //@   requires t != nil && t.rootLock != nil && next != nil && locks == emptyLocks()
 //@   relies a-current-version-has-never-been-superseded: prev != nil && prev == t.root ==> prev.chainedCollection == nil && prev.chainedRootNodeLoc == nil
-//@   modifies t.root, rootNodeLoc.chainedCollection, rootNodeLoc.chainedRootNodeLoc, rootNodeLoc.refs
+//@   modifies t.root, rootNodeLoc.chainedCollection, rootNodeLoc.chainedRootNodeLoc, rootNodeLoc.refs, prev.superseded
+//@   ensures [C10,C04,C12] R3-superseded-recorded: result && prev != nil ==> prev.superseded
+//@   ensures !result ==> prev == nil || prev.superseded == old(prev.superseded)
 //@   ensures [C05,C04] swapped-iff-current: result == (old(t.root) == prev) && (result ==> t.root == next) && (!result ==> t.root == old(t.root))
 //@   ensures [C10] R4-chain: result && prev != nil && old(prev.refs) > 2 && prev != next ==> prev.chainedCollection == t && prev.chainedRootNodeLoc == next && next.refs == old(next.refs) + 1
 //@   ensures [C10] R4-no-chain: result && (prev == nil || old(prev.refs) <= 2) ==> rootNodeLoc.refs == old(rootNodeLoc.refs) && rootNodeLoc.chainedRootNodeLoc == old(rootNodeLoc.chainedRootNodeLoc) && rootNodeLoc.chainedCollection == old(rootNodeLoc.chainedCollection)
 //@   ensures [C05] failed-changes-nothing: !result ==> rootNodeLoc.refs == old(rootNodeLoc.refs) && rootNodeLoc.chainedRootNodeLoc == old(rootNodeLoc.chainedRootNodeLoc) && rootNodeLoc.chainedCollection == old(rootNodeLoc.chainedCollection)
+
+//@ func (*Collection).markTreeUnlocked
+//@   props C10 C04 C12 C05
+//@   from: code (added by the D4 repair); C10 R3: wholesale marking touches only unmarked nodes
+//@   requires reclaimMark != nil
+//@   relies acyclic: nloc != nil && nloc.node != nil ==> rank(nloc.node) >= 0 && (nloc.node.left.node != nil ==> rank(nloc.node.left.node) < rank(nloc.node)) && (nloc.node.right.node != nil ==> rank(nloc.node.right.node) < rank(nloc.node))
+//@   modifies node.next
+//@   decreases (emptyNL(nloc) || nloc.node == nil) ? 0 : rank(nloc.node) + 1
+//@   ensures [C10] only-unmarked-get-marked: forall m: *node :: m.next != old(m.next) ==> old(m.next) == nil && m.next == reclaimMark
+
+//@ func (*Collection).closeCollection
+//@   props C04 C10 C12 C08 C15 C05 C18
+//@   from: C04 statement ("nothing done through a snapshot ... Close ... changes what the original store contains"), C12 ("none of these operations disturbs other collections or handles"), C10: releasing a handle must leave every still-referenced version untouched (R3)
+//@   requires locks == emptyLocks()
+//@   requires [C07] usable-handle: t != nil ==> t.rootLock != nil && t.store != nil
+//@   relies root-lock-is-private: t != nil ==> t.rootLock != ref(freeNodeLock) && t.rootLock != ref(freeNodeLocLock) && t.rootLock != ref(freeRootNodeLocLock)
+//@   relies live-version-has-a-root: t != nil && t.root != nil && t.root.refs <= 1 ==> t.root.root != nil
+//@   relies chain-is-well-founded: t != nil && t.root != nil && t.root.chainedRootNodeLoc != nil ==> chainlen(t.root.chainedRootNodeLoc) < chainlen(t.root) && chainlen(t.root.chainedRootNodeLoc) >= 0
+//@   relies chained-collection-is-well-formed: t != nil && t.root != nil && t.root.chainedCollection != nil ==> t.root.chainedCollection.store != nil
+//@   relies not-on-the-free-list: t != nil && t.root != nil ==> t.root.next == nil
+//@   relies root-loc-not-on-the-free-list: t != nil && t.root != nil && t.root.root != nil ==> t.root.root.next == nil
+//@   modifies t.root, rootNodeLoc.refs, rootNodeLoc.root, rootNodeLoc.next, rootNodeLoc.chainedCollection, rootNodeLoc.chainedRootNodeLoc, node.numNodes, node.numBytes, node.next, itemLoc.loc, itemLoc.item, nodeLoc.loc, nodeLoc.node, nodeLoc.next, mem.ptr, G.freeNodes, G.freeNodeLocs, G.freeRootNodeLocs, AllocStats.CurFreeNodes, AllocStats.FreeNodes, AllocStats.CurFreeNodeLocs, AllocStats.FreeNodeLocs, AllocStats.CurFreeRootNodeLocs, AllocStats.FreeRootNodeLocs, ghost net
+//@   ensures [C04,C12] handle-closed: t != nil ==> t.root == nil
+//@   ensures [C04,C10,C12] R3-release-is-harmless: t != nil && old(t.root) != nil && old(t.root.refs) > 1 ==> old(t.root).refs == old(t.root.refs) - 1 && node.next == old(node.next) && nodeLoc.node == old(nodeLoc.node) && nodeLoc.loc == old(nodeLoc.loc) && itemLoc.item == old(itemLoc.item) && rootNodeLoc.root == old(rootNodeLoc.root) && freeNodes == old(freeNodes) && freeNodeLocs == old(freeNodeLocs) && freeRootNodeLocs == old(freeRootNodeLocs) && net == old(net)
+//@   ensures [C12] nil-handle-is-a-no-op: t == nil ==> node.next == old(node.next) && node.numNodes == old(node.numNodes) && node.numBytes == old(node.numBytes) && rootNodeLoc.refs == old(rootNodeLoc.refs) && rootNodeLoc.root == old(rootNodeLoc.root) && rootNodeLoc.next == old(rootNodeLoc.next) && rootNodeLoc.chainedCollection == old(rootNodeLoc.chainedCollection) && rootNodeLoc.chainedRootNodeLoc == old(rootNodeLoc.chainedRootNodeLoc) && itemLoc.loc == old(itemLoc.loc) && itemLoc.item == old(itemLoc.item) && nodeLoc.loc == old(nodeLoc.loc) && nodeLoc.node == old(nodeLoc.node) && nodeLoc.next == old(nodeLoc.next) && mem.ptr == old(mem.ptr) && freeNodes == old(freeNodes) && freeNodeLocs == old(freeNodeLocs) && freeRootNodeLocs == old(freeRootNodeLocs) && net == old(net)
+
+// ===========================================================================
+// store.go: the collection map (C12), Flush, FlushRevert, open
+
+//@ func (*Store).setColl
+//@   inline
+//@ func (*Store).getColl
+//@   inline
+//@ func (*Store).casColl
+//@   inline
+
+//@ extern sort.Strings(x) ()
+//@   from: A8 (library): sorts in place; the multiset of elements is preserved
+//@   modifies content(x)
+//@   ensures sortedStrs(content(x), off(x), len(x))
+//@   ensures forall v :: occurs(content(x), off(x), len(x), v) == old(occurs(content(x), off(x), len(x), v))
+
+//@ func collNames
+//@   props C12 C05 C02
+//@   from: C12 statement "GetCollectionNames is always the sorted set of current names"; C05 L6
+//@   modifies new mem.Int
+//@   ensures [C12,C05] sorted: sortedStrs(content(result), off(result), len(result)) && fresh(result)
+//@   loop 0 modifies mem.Int
+//@   loop 0 invariant fresh(res)
+//@   loop 0 invariant older-arrays-untouched: forall a :: !fresh(a) ==> mem.Int[a] == old(mem.Int[a])
+
+//@ func copyColl
+//@   props C12 C04
+//@   from: code; C12 (copy-on-write of the collection map: the published map is never mutated)
+//@   ensures [C12] same-map: fresh(result) && result != nil && (forall k :: has(result, k) == has(orig, k)) && (forall k :: has(orig, k) ==> result[k] == orig[k])
+//@   loop 0 modifies map.ptr, map.dom
+//@   loop 0 invariant res != nil && fresh(res) && res != orig
+//@   loop 0 invariant forall k :: has(res, k) ==> has(orig, k) && res[k] == orig[k]
+//@   loop 0 invariant forall k :: seen(k) ==> has(res, k)
+//@   loop 0 invariant older-maps-untouched: forall m :: !fresh(m) ==> map.ptr[m] == old(map.ptr[m]) && map.dom[m] == old(map.dom[m])
+
+//@ func (*Store).MakePrivateCollection
+//@   props C12 C01
+//@   requires s != nil
+//@   modifies new Collection.name, new Collection.store, new Collection.compare, new Collection.rootLock, new Collection.root, new Collection.AppData, new rootNodeLoc.refs, new rootNodeLoc.root, new rootNodeLoc.next, new rootNodeLoc.superseded, new rootNodeLoc.chainedCollection, new rootNodeLoc.chainedRootNodeLoc, new mem.ptr
+//@   ensures [C12] fresh-empty-collection: result != nil && fresh(result) && result.store == s && result.rootLock != nil && fresh(result.rootLock) && result.root != nil && fresh(result.root) && result.root.refs == 1 && result.root.root == emptyNodeLoc && result.root.next == nil && !result.root.superseded && result.root.chainedCollection == nil && result.root.chainedRootNodeLoc == nil
+//@   ensures [C12] comparator: result.compare == (compare == nil ? funcref("bytes.Compare") : compare)
+
+//@ func (*Store).GetCollection
+//@   props C12 C09
+//@   requires s != nil && s.coll != nil && locks == emptyLocks()
+//@   ensures [C12] result == (has(deref(s.coll), name) ? deref(s.coll)[name] : nil)
+
+//@ func (*Store).GetCollectionNames
+//@   props C12 C09
+//@   requires s != nil && s.coll != nil && locks == emptyLocks()
+//@   modifies new mem.Int
+//@   ensures [C12] sorted: sortedStrs(content(result), off(result), len(result))
+
+//@ func (*Store).SetCollection
+//@   props C12 C10 C04 C05 C09
+//@   from: C12 statement: "SetCollection on a new name creates an empty collection; on an existing name it keeps all items and only installs the new comparator ... none of these operations disturbs other collections or handles"
+//@   requires s != nil && locks == emptyLocks()
+//@   requires [C07] open-store: s.coll != nil && deref(s.coll) != nil
+//@   relies registered-handles-are-usable: forall k :: has(deref(s.coll), k) && deref(s.coll)[k] != nil ==> deref(s.coll)[k].rootLock != nil && deref(s.coll)[k].root != nil && deref(s.coll)[k].store != nil && deref(s.coll)[k].root.refs >= 1
+//@   modifies s.coll, cell.Int, map.ptr, map.dom, Collection.name, Collection.store, Collection.compare, Collection.rootLock, Collection.root, Collection.AppData, rootNodeLoc.refs, rootNodeLoc.root, rootNodeLoc.next, rootNodeLoc.superseded, rootNodeLoc.chainedCollection, rootNodeLoc.chainedRootNodeLoc, node.numNodes, node.numBytes, node.next, itemLoc.loc, itemLoc.item, nodeLoc.loc, nodeLoc.node, nodeLoc.next, mem.ptr, G.freeNodes, G.freeNodeLocs, G.freeRootNodeLocs, AllocStats.CurFreeNodes, AllocStats.FreeNodes, AllocStats.CurFreeNodeLocs, AllocStats.FreeNodeLocs, AllocStats.CurFreeRootNodeLocs, AllocStats.FreeRootNodeLocs, ghost net
+//@   ensures [C12] registered: result != nil && fresh(result) && s.coll != nil && has(deref(s.coll), name) && deref(s.coll)[name] == result && result.store == s
+//@   ensures [C12] others-kept: forall k :: k != name ==> has(deref(s.coll), k) == old(has(deref(s.coll), k)) && (has(deref(s.coll), k) ==> deref(s.coll)[k] == old(deref(s.coll)[k]))
+//@   ensures [C12] comparator-installed: result.compare == (compare == nil ? funcref("bytes.Compare") : compare)
+//@   ensures [C12] new-name-is-empty: !old(has(deref(s.coll), name)) ==> result.root != nil && fresh(result.root) && result.root.root == emptyNodeLoc
+//@   ensures [C12] existing-keeps-its-version: old(has(deref(s.coll), name)) && old(deref(s.coll)[name]) != nil ==> result.root == old(deref(s.coll)[name].root) && result.rootLock == old(deref(s.coll)[name].rootLock)
+//@   ensures [C12,C04] published-map-not-mutated: map.ptr[old(deref(s.coll))] == old(map.ptr[deref(s.coll)]) && map.dom[old(deref(s.coll))] == old(map.dom[deref(s.coll)])
+//@   ensures [C12,C10] R3-existing-version-untouched: old(has(deref(s.coll), name)) && old(deref(s.coll)[name]) != nil ==> node.next == old(node.next) && result.root.refs == old(deref(s.coll)[name].root.refs) && net == old(net) && freeNodes == old(freeNodes)
+//@   loop 0 invariant retry-never-needed-sequentially: compare == (old(compare) == nil ? funcref("bytes.Compare") : old(compare))
+//@   loop 0 decreases 0
+
+//@ func (*Store).RemoveCollection
+//@   props C12 C10 C04 C05 C09
+//@   from: C12 statement: "RemoveCollection drops the collection ... none of these operations disturbs other collections or handles"
+//@   requires s != nil && locks == emptyLocks()
+//@   requires [C07] open-store: s.coll != nil && deref(s.coll) != nil
+//@   relies registered-handles-are-usable: forall k :: has(deref(s.coll), k) && deref(s.coll)[k] != nil ==> deref(s.coll)[k].rootLock != nil && deref(s.coll)[k].store != nil
+//@   modifies s.coll, cell.Int, map.ptr, map.dom, Collection.root, rootNodeLoc.refs, rootNodeLoc.root, rootNodeLoc.next, rootNodeLoc.chainedCollection, rootNodeLoc.chainedRootNodeLoc, node.numNodes, node.numBytes, node.next, itemLoc.loc, itemLoc.item, nodeLoc.loc, nodeLoc.node, nodeLoc.next, mem.ptr, G.freeNodes, G.freeNodeLocs, G.freeRootNodeLocs, AllocStats.CurFreeNodes, AllocStats.FreeNodes, AllocStats.CurFreeNodeLocs, AllocStats.FreeNodeLocs, AllocStats.CurFreeRootNodeLocs, AllocStats.FreeRootNodeLocs, ghost net
+//@   ensures [C12] removed: s.coll != nil && !has(deref(s.coll), name)
+//@   ensures [C12] others-kept: forall k :: k != name ==> has(deref(s.coll), k) == old(has(deref(s.coll), k)) && (has(deref(s.coll), k) ==> deref(s.coll)[k] == old(deref(s.coll)[k]))
+//@   ensures [C12,C04] published-map-not-mutated: map.ptr[old(deref(s.coll))] == old(map.ptr[deref(s.coll)]) && map.dom[old(deref(s.coll))] == old(map.dom[deref(s.coll)])
+//@   ensures [C12] other-handles-undisturbed: forall c: *Collection :: c != nil && (!old(has(deref(s.coll), name)) || c != old(deref(s.coll)[name])) ==> c.root == old(c.root)
+//@   loop 0 invariant retry-never-needed-sequentially: true
+//@   loop 0 decreases 0
